@@ -10,6 +10,9 @@ import PygProofs.Lemmas.ResDec
 import PygProofs.Lemmas.WrapLemmas
 import PygProofs.Lemmas.CacheLemmas
 import PygProofs.Lemmas.CacheKeyLemmas
+import PygModel.WrapHist
+import PygModel.Try
+import PygProofs.Lemmas.WrapHistLemmas
 
 namespace Pyg.Props.C18
 open Pyg
@@ -138,6 +141,80 @@ theorem try_back_fallback_iff (s : Sig) (body : PDict → Res Val) (p : PDict) (
       evalChain s body ((.tryBack, p) :: rest) c = .ok (firstArg s c)) := by
   constructor <;> intro x hx <;> simp [evalChain, hx]
 
+/-! ### the `try_*` clause against an independent reading
+
+`tryValueCode` / `tryBackCode` (PygModel/Try.lean) are the statements of `try_value.wrapped` / `try_back.wrapped`
+over an ARBITRARY wrapped function `f : A → Except E V` — no signature, no binding, no chain.  The clause "try_*
+wrappers return their fallback exactly when f raises" is: the wrapped call returns
+`resultOr (f a) fallback = match f a with | ok v => v | error _ => fallback`. -/
+
+/-- **try_value (any `repeat`, `return_value` true): f's result when f returns, the fallback when f raises** -/
+theorem try_value_spec {A E V : Type} (f : A → Except E V) (rep : Nat) (value : V) (a : A) :
+    tryValueCode f rep true value a = .ok (resultOr (f a) value) := by
+  induction rep with
+  | zero => unfold tryValueCode; cases f a <;> rfl
+  | succ n ih => unfold tryValueCode; cases h : f a with
+    | ok v => rfl
+    | error e => simp only [ih, h]
+
+/-- … "exactly when": the fallback is returned iff `f` raises (or returns the fallback itself) -/
+theorem try_value_fallback_iff {A E V : Type} (f : A → Except E V) (rep : Nat) (value : V) (a : A) :
+    tryValueCode f rep true value a = .ok value ↔ (∃ e, f a = .error e) ∨ f a = .ok value := by
+  rw [try_value_spec]
+  cases f a with
+  | ok v => simp [resultOr]
+  | error e => simp [resultOr]
+
+/-- with `return_value = False` nothing is caught in the end: the wrapped call is `f`'s -/
+theorem try_value_no_return_spec {A E V : Type} (f : A → Except E V) (rep : Nat) (value : V) (a : A) :
+    tryValueCode f rep false value a = f a := by
+  induction rep with
+  | zero => unfold tryValueCode; rfl
+  | succ n ih => unfold tryValueCode; cases h : f a with
+    | ok v => rfl
+    | error e => simp only [ih, h]
+
+/-- **try_back: f's result when f returns, the first argument when f raises** -/
+theorem try_back_spec {A E V : Type} (f : A → Except E V) (first : A → V) (a : A) :
+    tryBackCode f first a = .ok (resultOr (f a) (first a)) := by
+  unfold tryBackCode; cases f a <;> rfl
+
+/-- **every preset of the code** (`try_nan`, `try_zero`, `try_none`, `try_true`, `try_false`, `try_list`): f's result,
+else the preset value -/
+theorem try_presets_spec {A E : Type} (f : A → Except E Val) (a : A) :
+    ∀ nv ∈ tryPresets, tryValueCode f 0 true nv.2 a = .ok (resultOr (f a) nv.2) :=
+  fun nv _ => try_value_spec f 0 nv.2 a
+
+/-- the `try_value` layer of a stack IS that code, run on the stack below it … -/
+theorem evalChain_tryValue_eq (s : Sig) (body : PDict → Res Val) (p : PDict) (rest : List (Cls × PDict)) (c : Call) :
+    evalChain s body ((.tryValue, p) :: rest) c =
+      tryValueCode (evalChain s body rest) (repeatOf p)
+        (decide (p.lookup "return_value" ≠ some (.cell (.bool false)))) ((p.lookup "value").getD (.cell .none)) c := by
+  by_cases hp : p.lookup "return_value" = some (.cell (.bool false))
+  · simp only [hp, ne_eq, not_true_eq_false, decide_false, try_value_no_return_spec, evalChain]
+    cases evalChain s body rest c <;> simp
+  · simp only [hp, ne_eq, not_false_eq_true, decide_true, try_value_spec, evalChain, if_false]
+    cases evalChain s body rest c <;> rfl
+
+/-- … and so is the `try_back` layer -/
+theorem evalChain_tryBack_eq (s : Sig) (body : PDict → Res Val) (p : PDict) (rest : List (Cls × PDict)) (c : Call) :
+    evalChain s body ((.tryBack, p) :: rest) c = tryBackCode (evalChain s body rest) (firstArg s) c := by
+  simp only [evalChain, tryBackCode]
+  cases evalChain s body rest c <;> rfl
+
+/-- **try_value in a stack** (`return_value` not False): what the stack below returns, else the fallback -/
+theorem try_value_stack_spec (s : Sig) (body : PDict → Res Val) (p : PDict) (rest : List (Cls × PDict)) (c : Call)
+    (hp : p.lookup "return_value" ≠ some (.cell (.bool false))) :
+    evalChain s body ((.tryValue, p) :: rest) c =
+      .ok (resultOr (evalChain s body rest c) ((p.lookup "value").getD (.cell .none))) := by
+  rw [evalChain_tryValue_eq, decide_eq_true hp, try_value_spec]
+
+/-- non-vacuity: `try_zero(f)` on a raising and on a returning call, `repeat = 2` -/
+example :
+    tryValueCode (fun n : Nat => if n = 0 then Except.error "boom" else Except.ok (10 / n)) 2 true 0 0 = .ok 0 ∧
+    tryValueCode (fun n : Nat => if n = 0 then (Except.error "boom" : Except String Nat) else .ok (10 / n)) 2 true 0 5 = .ok 2 :=
+  ⟨rfl, rfl⟩
+
 /-- `loops` is NOT transparent for a keyword argument called `axis` (finding K4): it is consumed by the decorator
 even when the first argument is not a container, `loop(list)(lambda a, axis=0: (a, axis))(1, axis=5) == (1, 0)`.
 The transparency clause of the property is false of the code there; this is the witness. -/
@@ -152,15 +229,43 @@ theorem loops_swallows_axis :
   · intro n h; cases h
   · intro n m h; cases h
 
+/-- `pd2np` is NOT transparent for an int ndarray argument (finding K6): on non-pandas input it still runs
+`_int2float` over the arguments, so f receives a float array (`~arr:f:…`) where an int array (`~arr:…`) was passed —
+documented ("will also convert int numpy arrays into floaters"), but the transparency clause of the property is false
+of the code there; this is the witness: `pd2np(lambda a: a)(np.array([1, 2]))` has dtype float. -/
+theorem pd2np_converts_int_array :
+    ∃ (s : Sig) (c : Call) (b : PDict), s.WF ∧ bindRef s c = .ok b ∧ (∀ p ∈ c.kw, p.1 ∈ s.params) ∧
+      evalChain s recBody [(.pd2np, [])] c ≠ applyFn s recBody c ∧
+      evalChain s recBody [(.pd2np, [])] c = applyFn s recBody (pd2npCall [] c) ∧
+      applyFn s recBody c = .ok (.dict [("a", .cell (.str "~arr:1,2"))]) ∧
+      evalChain s recBody [(.pd2np, [])] c = .ok (.dict [("a", .cell (.str "~arr:f:1,2"))]) := by
+  refine ⟨{ params := ["a"], defaults := [], varargs := none, varkw := none },
+    { args := [.cell (.str "~arr:1,2")], kw := [] }, [("a", .cell (.str "~arr:1,2"))], ?_, by decide +kernel,
+    by simp, by decide +kernel, rfl, by decide +kernel, by decide +kernel⟩
+  refine ⟨by decide, by decide, ?_, ?_, ?_⟩
+  · intro n h; cases h
+  · intro n h; cases h
+  · intro n m h; cases h
+
+/-- … and that is the only thing it does: a keyword named in `exc` keeps its int array -/
+example :
+    let s : Sig := { params := ["a", "b"], defaults := [], varargs := none, varkw := none }
+    evalChain s recBody [(.pd2np, [("exc", .list [.cell (.str "b")])])]
+        { args := [.list [.cell (.str "~arr:1,2"), .cell (.int 3)]], kw := [("b", .cell (.str "~arr:4"))] } =
+      .ok (.dict [("a", .list [.cell (.str "~arr:f:1,2"), .cell (.int 3)]), ("b", .cell (.str "~arr:4"))]) := by
+  decide +kernel
+
 /-- **Transparency of every stack.** On a valid call that passes only declared keywords, none of them called
-`axis` (see `loops_swallows_axis`), any stack of `try_value / try_back / kwargs_support / cache (first call) /
-loops (non-container) / pd2np (non-pandas)` returns what `f` returns. -/
+`axis` (see `loops_swallows_axis`), and no int ndarray among the arguments (see `pd2np_converts_int_array`), any stack
+of `try_value / try_back / kwargs_support / cache (first call) / loops (non-container) / pd2np (non-pandas)` returns
+what `f` returns. -/
 theorem stack_transparent (s : Sig) (body : PDict → Res Val) :
     ∀ (chain : List (Cls × PDict)) (c : Call) (v : Val), (∀ p ∈ c.kw, p.1 ∈ s.params) →
-      (∀ p ∈ c.kw, p.1 ≠ "axis") → applyFn s body c = .ok v → evalChain s body chain c = .ok v
-  | [], c, v, _, _, h => by simpa [evalChain] using h
-  | (cls, p) :: rest, c, v, hd, hax, h => by
-      have ih := stack_transparent s body rest c v hd hax h
+      (∀ p ∈ c.kw, p.1 ≠ "axis") → c.hasIntArr = false → applyFn s body c = .ok v →
+      evalChain s body chain c = .ok v
+  | [], c, v, _, _, _, h => by simpa [evalChain] using h
+  | (cls, p) :: rest, c, v, hd, hax, hia, h => by
+      have ih := stack_transparent s body rest c v hd hax hia h
       have hk : kwFilter s c = c := by
         cases c with
         | mk args kw =>
@@ -171,14 +276,17 @@ theorem stack_transparent (s : Sig) (body : PDict → Res Val) :
       have hl : evalChain s body rest (loopsCall s c) = .ok v :=
         stack_transparent s body rest (loopsCall s c) v
           (fun q hq => hd q (loopsCall_kw_sub s c q hq)) (fun q hq => hax q (loopsCall_kw_sub s c q hq))
-          (by simpa [applyFn, loopsCall_bind s c hax] using h)
-      cases cls <;> simp [evalChain, ih, hk, hl]
+          (loopsCall_hasIntArr s c hia) (by simpa [applyFn, loopsCall_bind s c hax] using h)
+      have hp : pd2npCall (excOf p) c = c := pd2npCall_of_no _ c hia
+      cases cls <;> simp [evalChain, ih, hk, hl, hp]
 
-/-- for a function without `**kwargs` that is every valid call (without a keyword called `axis`) -/
+/-- for a function without `**kwargs` that is every valid call (without a keyword called `axis`, without an int
+ndarray argument) -/
 theorem stack_transparent_no_varkw (s : Sig) (hv : s.varkw = none) (body : PDict → Res Val) (c : Call)
-    (v : Val) (hax : ∀ p ∈ c.kw, p.1 ≠ "axis") (h : applyFn s body c = .ok v) (chain : List (Cls × PDict)) :
+    (v : Val) (hax : ∀ p ∈ c.kw, p.1 ≠ "axis") (hia : c.hasIntArr = false) (h : applyFn s body c = .ok v)
+    (chain : List (Cls × PDict)) :
     evalChain s body chain c = .ok v := by
-  apply stack_transparent s body chain c v _ hax h
+  apply stack_transparent s body chain c v _ hax hia h
   cases hb : bindRef s c with
   | error e => simp [applyFn, hb] at h
   | ok b =>
@@ -191,27 +299,29 @@ theorem stack_transparent_no_varkw (s : Sig) (hv : s.varkw = none) (body : PDict
 /-- for a function with `**kwargs`, every stack that does not contain `kwargs_support` is transparent on
 every valid call (what remains is finding K1) -/
 theorem stack_transparent_without_kwargs_support (s : Sig) (body : PDict → Res Val) :
-    ∀ (chain : List (Cls × PDict)) (c : Call) (v : Val), (∀ p ∈ c.kw, p.1 ≠ "axis") →
+    ∀ (chain : List (Cls × PDict)) (c : Call) (v : Val), (∀ p ∈ c.kw, p.1 ≠ "axis") → c.hasIntArr = false →
       applyFn s body c = .ok v → (∀ w ∈ chain, w.1 ≠ .kwargsSupport) → evalChain s body chain c = .ok v
-  | [], c, v, _, h, _ => by simpa [evalChain] using h
-  | (cls, p) :: rest, c, v, hax, h, hc => by
+  | [], c, v, _, _, h, _ => by simpa [evalChain] using h
+  | (cls, p) :: rest, c, v, hax, hia, h, hc => by
       have hr : ∀ w ∈ rest, w.1 ≠ .kwargsSupport := fun w hw => hc w (by simp [hw])
-      have ih := stack_transparent_without_kwargs_support s body rest c v hax h hr
+      have ih := stack_transparent_without_kwargs_support s body rest c v hax hia h hr
       have hl : evalChain s body rest (loopsCall s c) = .ok v :=
         stack_transparent_without_kwargs_support s body rest (loopsCall s c) v
-          (fun q hq => hax q (loopsCall_kw_sub s c q hq))
+          (fun q hq => hax q (loopsCall_kw_sub s c q hq)) (loopsCall_hasIntArr s c hia)
           (by simpa [applyFn, loopsCall_bind s c hax] using h) hr
+      have hp : pd2npCall (excOf p) c = c := pd2npCall_of_no _ c hia
       have : cls ≠ .kwargsSupport := hc (cls, p) (by simp)
       cases cls <;> simp_all [evalChain]
 
 /-- a stack without `try_*` also raises what `f` raises -/
 theorem stack_transparent_raise (s : Sig) (body : PDict → Res Val) :
     ∀ (chain : List (Cls × PDict)) (c : Call), (∀ p ∈ c.kw, p.1 ∈ s.params) → (∀ p ∈ c.kw, p.1 ≠ "axis") →
+      c.hasIntArr = false →
       (∀ w ∈ chain, w.1 ≠ .tryValue ∧ w.1 ≠ .tryBack) → evalChain s body chain c = applyFn s body c
-  | [], c, _, _, _ => by simp [evalChain]
-  | (cls, p) :: rest, c, hd, hax, hc => by
+  | [], c, _, _, _, _ => by simp [evalChain]
+  | (cls, p) :: rest, c, hd, hax, hia, hc => by
       have hr : ∀ w ∈ rest, w.1 ≠ .tryValue ∧ w.1 ≠ .tryBack := fun w hw => hc w (by simp [hw])
-      have ih := stack_transparent_raise s body rest c hd hax hr
+      have ih := stack_transparent_raise s body rest c hd hax hia hr
       have hk : kwFilter s c = c := by
         cases c with
         | mk args kw =>
@@ -221,8 +331,10 @@ theorem stack_transparent_raise (s : Sig) (body : PDict → Res Val) :
           simpa using hd q hq
       have hl : evalChain s body rest (loopsCall s c) = applyFn s body c := by
         rw [stack_transparent_raise s body rest (loopsCall s c)
-          (fun q hq => hd q (loopsCall_kw_sub s c q hq)) (fun q hq => hax q (loopsCall_kw_sub s c q hq)) hr]
+          (fun q hq => hd q (loopsCall_kw_sub s c q hq)) (fun q hq => hax q (loopsCall_kw_sub s c q hq))
+          (loopsCall_hasIntArr s c hia) hr]
         simp [applyFn, loopsCall_bind s c hax]
+      have hp : pd2npCall (excOf p) c = c := pd2npCall_of_no _ c hia
       have := hc (cls, p) (by simp)
       cases cls <;> simp_all [evalChain]
 
@@ -527,6 +639,235 @@ example :
       [.ok (.tuple c1.args), .ok (.tuple c2.args), .ok (.tuple c1.args)] := by
   refine ⟨⟨by decide, by decide, by decide⟩, ⟨by decide, by decide, by decide⟩, ⟨by decide, by decide, by decide⟩,
     by decide +kernel, by decide +kernel⟩
+
+/-! ## call histories through a stack that contains `cache`
+
+`runH s body unh chain {} calls` (PygModel/WrapHist.lean) runs a history of calls on one decorated function whose
+stack `chain = above ++ (cache, p) :: below` holds one cache layer — the only shape the constructor builds
+(`mk_keeps_distinct`): the state is the dict of that layer plus the log `.evals` of every execution of the plain
+function.  `reach s above c` is the call as the cache layer receives it; on valid calls it is `c` itself unless
+`loops` sits above the cache, which passes a first argument given by keyword positionally (`stack_cache_seen`).
+`ValidCall s body c v` (WrapHistLemmas): python binds `c`, `f` returns `v`, only declared keywords, none called
+`axis` (K4), no int ndarray (K6) — the hypotheses of `stack_transparent`. -/
+
+/-- the hypotheses on one call of a history: a valid call of a non-raising `f`, hashable (K5), with python dicts
+as arguments -/
+def HistCall (s : Sig) (body : PDict → Res Val) (unh : Call → Bool) (above : List (Cls × PDict)) (c : Call) : Prop :=
+  (∃ v, ValidCall s body c v) ∧ unh (reach s above c) = false ∧ Call.ok (reach s above c)
+
+/-- **A stack with a cache layer, over any call history**: for every stack `above ++ cache :: below` (any layers of
+the other five classes above and below the cache), every history `pre` of valid calls of a non-raising `f` and every
+next call `c`:
+* if no earlier call is the same combination, the plain function is executed exactly once more and the reply is
+  what `f` returns on `c`;
+* otherwise the plain function is not executed and the reply is what `f` returned on the FIRST earlier call that
+  is the same combination.
+"The same combination" is `sameComb` (python `==` of what was passed) on the calls as the cache layer receives them.
+Proof: the stack refines the plain cache (`runH_refines`, which uses transparency of the layers above and below:
+`evalH_through`, `evalH_below`), then `cache_once_per_combination`. -/
+theorem stack_cache_history (s : Sig) (body : PDict → Res Val) (unh : Call → Bool) (p : PDict)
+    (above below : List (Cls × PDict)) (ha : noCache above) (hb : noCache below)
+    (pre : List Call) (c : Call) (hpre : ∀ x ∈ pre, HistCall s body unh above x) (hc : HistCall s body unh above c) :
+    let chain := above ++ (Cls.cache, p) :: below
+    let seen := reach s above
+    let r := runH s body unh chain {} pre
+    let r' := runH s body unh chain {} (pre ++ [c])
+    r'.2 = r.2 ++ [r'.2.getLast?.getD (applyFn s body c)] ∧
+    ((∀ x ∈ pre, ¬ sameComb (seen x) (seen c)) →
+      r'.1.evals.length = r.1.evals.length + 1 ∧ r'.2.getLast? = some (applyFn s body c)) ∧
+    ((∃ x ∈ pre, sameComb (seen x) (seen c)) →
+      r'.1.evals.length = r.1.evals.length ∧
+      ∃ pre1 c0 pre2, pre = pre1 ++ c0 :: pre2 ∧ sameComb (seen c0) (seen c) ∧
+        (∀ x ∈ pre1, ¬ sameComb (seen x) (seen c)) ∧ r'.2.getLast? = some (applyFn s body c0)) := by
+  intro chain seen r r'
+  have hv : ∀ x ∈ pre, (∃ v, ValidCall s body x v) ∧ unh (reach s above x) = false :=
+    fun x hx => ⟨(hpre x hx).1, (hpre x hx).2.1⟩
+  have hv' : ∀ x ∈ pre ++ [c], (∃ v, ValidCall s body x v) ∧ unh (reach s above x) = false := by
+    intro x hx
+    rcases List.mem_append.1 hx with hx | hx
+    · exact hv x hx
+    · simp only [List.mem_singleton] at hx; subst hx; exact ⟨hc.1, hc.2.1⟩
+  obtain ⟨_, hr2, hr3⟩ := runH_refines s body unh p above below ha hb pre {} {} rfl hv
+  obtain ⟨_, hr2', hr3'⟩ := runH_refines s body unh p above below ha hb (pre ++ [c]) {} {} rfl hv'
+  rw [List.map_append, List.map_cons, List.map_nil] at hr2' hr3'
+  simp only [List.length_nil, Nat.add_zero, Nat.zero_add] at hr3 hr3'
+  -- what `f` returns on a valid call is the value the plain cache stores for the call the cache layer sees
+  have hres : ∀ x, (∃ v, ValidCall s body x v) → Except.ok (resultOf s body (seen x)) = applyFn s body x := by
+    rintro x ⟨v, h⟩
+    rw [(ValidCall.reach above h).resultOf_eq, h.ok]
+  obtain ⟨h1, h2, h3⟩ := cache_once_per_combination (resultOf s body) (pre.map seen) (seen c)
+    (by intro y hy; obtain ⟨x, hx, rfl⟩ := List.mem_map.1 hy; exact (hpre x hx).2.2) hc.2.2
+  have e2 : r.2 = (runCache (fun c => Except.ok (resultOf s body c)) {} (List.map seen pre)).2 := hr2
+  have e2' : r'.2 = (runCache (fun c => Except.ok (resultOf s body c)) {} (List.map seen pre ++ [seen c])).2 := hr2'
+  have e3 : r.1.evals.length =
+      (runCache (fun c => Except.ok (resultOf s body c)) {} (List.map seen pre)).1.evals.length := hr3
+  have e3' : r'.1.evals.length =
+      (runCache (fun c => Except.ok (resultOf s body c)) {} (List.map seen pre ++ [seen c])).1.evals.length := hr3'
+  refine ⟨?_, fun hno => ?_, fun hex => ?_⟩
+  · rw [e2', e2, ← hres c hc.1]; exact h1
+  · have := h2 (by
+      intro y hy; obtain ⟨x, hx, rfl⟩ := List.mem_map.1 hy; exact hno x hx)
+    rw [e3', e3, e2', ← hres c hc.1]; exact this
+  · obtain ⟨x, hx, hs⟩ := hex
+    obtain ⟨hl, p1, c0', p2, hsplit, hs0, hbefore, hlast⟩ := h3 ⟨seen x, List.mem_map.2 ⟨x, hx, rfl⟩, hs⟩
+    obtain ⟨l1, l2, hpre12, hm1, hm2⟩ := List.map_eq_append_iff.1 hsplit
+    obtain ⟨c0, l2', hl2, hc0, hm2'⟩ := List.map_eq_cons_iff.1 hm2
+    subst hl2 hc0 hm1
+    refine ⟨by rw [e3', e3]; exact hl, l1, c0, l2', hpre12, hs0,
+      fun y hy => hbefore (seen y) (List.mem_map.2 ⟨y, hy, rfl⟩), ?_⟩
+    rw [e2', ← hres c0 ((hpre c0 (by rw [hpre12]; simp)).1)]; exact hlast
+
+/-- the whole history at once: the replies are `f` of the first call of the history that the cache layer sees under
+the same key, and the plain function is executed as many times as there are distinct keys -/
+theorem stack_cache_history_all (s : Sig) (body : PDict → Res Val) (unh : Call → Bool) (p : PDict)
+    (above below : List (Cls × PDict)) (ha : noCache above) (hb : noCache below)
+    (calls : List Call) (hcalls : ∀ x ∈ calls, (∃ v, ValidCall s body x v) ∧ unh (reach s above x) = false) :
+    let seen := reach s above
+    let r := runH s body unh (above ++ (Cls.cache, p) :: below) {} calls
+    (∀ (i : Nat) (c : Call), calls[i]? = some c →
+      ∃ pre1 c0 pre2, calls = pre1 ++ c0 :: pre2 ∧ callKey (seen c0) = callKey (seen c) ∧
+        (∀ x ∈ pre1, callKey (seen x) ≠ callKey (seen c)) ∧ r.2[i]? = some (applyFn s body c0)) ∧
+    ∃ keys : List Val, keys.Nodup ∧ (∀ k, k ∈ keys ↔ k ∈ calls.map fun c => callKey (seen c)) ∧
+      r.1.evals.length = keys.length := by
+  intro seen r
+  obtain ⟨_, hr2, hr3⟩ := runH_refines s body unh p above below ha hb calls {} {} rfl hcalls
+  simp only [List.length_nil, Nat.add_zero, Nat.zero_add] at hr3
+  obtain ⟨hnd, hkeys, hrep⟩ := cache_once (resultOf s body) (calls.map seen)
+  refine ⟨fun i c hi => ?_, ⟨_, hnd, fun k => by rw [hkeys k, List.map_map]; rfl, hr3⟩⟩
+  have e2 : r.2 = (runCache (fun c => Except.ok (resultOf s body c)) {} (List.map seen calls)).2 := hr2
+  -- the first call of the mapped history with the key of `seen c`
+  have hmem : c ∈ calls := List.mem_of_getElem? hi
+  cases hf : firstWith (calls.map seen) (callKey (seen c)) with
+  | none =>
+    rw [firstWith_none_iff] at hf
+    exact absurd (List.mem_map.2 ⟨seen c, List.mem_map.2 ⟨c, hmem, rfl⟩, rfl⟩) hf
+  | some c0' =>
+    simp only [firstWith] at hf
+    obtain ⟨hk0, p1, p2, hsplit, hbefore⟩ := List.find?_eq_some_iff_append.1 hf
+    obtain ⟨l1, l2, hc12, hm1, hm2⟩ := List.map_eq_append_iff.1 hsplit
+    obtain ⟨c0, l2', hl2, hc0, _⟩ := List.map_eq_cons_iff.1 hm2
+    subst hl2 hc0 hm1
+    have hc0mem : c0 ∈ calls := by rw [hc12]; simp
+    have hk0' : callKey (seen c0) = callKey (seen c) := by simpa using hk0
+    have hnot1 : ∀ y ∈ l1, callKey (seen y) ≠ callKey (seen c) := by
+      intro y hy
+      have := hbefore (seen y) (List.mem_map.2 ⟨y, hy, rfl⟩)
+      simpa using this
+    refine ⟨l1, c0, l2', hc12, hk0', hnot1, ?_⟩
+    rw [e2, hrep]
+    simp only [List.map_map, List.getElem?_map, hi, Option.map_some, Function.comp]
+    have : firstWith (List.map seen calls) (callKey (seen c)) = some (seen c0) := by
+      simp only [firstWith]; exact hf
+    rw [this]
+    obtain ⟨v, hv⟩ := (hcalls c0 hc0mem).1
+    simp only [Option.getD_some]
+    rw [(ValidCall.reach above hv).resultOf_eq, hv.ok]
+
+/-- the combination the cache layer sees: the call itself, unless `loops` sits above the cache — then a first
+argument given by keyword has become positional (`loopsCall`) -/
+theorem stack_cache_seen (s : Sig) (body : PDict → Res Val) (above : List (Cls × PDict)) (c : Call) (v : Val)
+    (h : ValidCall s body c v) :
+    reach s above c = if Cls.loops ∈ classes above then loopsCall s c else c :=
+  reach_valid_eq s body above c v h
+
+/-- so without `loops` above the cache the statement is about the calls exactly as passed to the stack -/
+theorem stack_cache_history_as_passed (s : Sig) (body : PDict → Res Val) (unh : Call → Bool) (p : PDict)
+    (above below : List (Cls × PDict)) (ha : noCache above) (hb : noCache below) (hl : Cls.loops ∉ classes above)
+    (pre : List Call) (c : Call)
+    (hpre : ∀ x ∈ pre, (∃ v, ValidCall s body x v) ∧ unh x = false ∧ Call.ok x)
+    (hc : (∃ v, ValidCall s body c v) ∧ unh c = false ∧ Call.ok c) :
+    let chain := above ++ (Cls.cache, p) :: below
+    let r := runH s body unh chain {} pre
+    let r' := runH s body unh chain {} (pre ++ [c])
+    ((∀ x ∈ pre, ¬ sameComb x c) →
+      r'.1.evals.length = r.1.evals.length + 1 ∧ r'.2.getLast? = some (applyFn s body c)) ∧
+    ((∃ x ∈ pre, sameComb x c) →
+      r'.1.evals.length = r.1.evals.length ∧
+      ∃ pre1 c0 pre2, pre = pre1 ++ c0 :: pre2 ∧ sameComb c0 c ∧
+        (∀ x ∈ pre1, ¬ sameComb x c) ∧ r'.2.getLast? = some (applyFn s body c0)) := by
+  have hseen : ∀ x, (∃ v, ValidCall s body x v) → reach s above x = x := by
+    rintro x ⟨v, h⟩
+    rw [reach_valid_eq s body above x v h, if_neg hl]
+  have hpre' : ∀ x ∈ pre, HistCall s body unh above x := by
+    intro x hx
+    obtain ⟨h1, h2, h3⟩ := hpre x hx
+    exact ⟨h1, by rw [hseen x h1]; exact h2, by rw [hseen x h1]; exact h3⟩
+  have hc' : HistCall s body unh above c :=
+    ⟨hc.1, by rw [hseen c hc.1]; exact hc.2.1, by rw [hseen c hc.1]; exact hc.2.2⟩
+  obtain ⟨_, h2, h3⟩ := stack_cache_history s body unh p above below ha hb pre c hpre' hc'
+  simp only [hseen c hc.1] at h2 h3
+  refine ⟨fun hno => h2 fun x hx => by rw [hseen x (hpre x hx).1]; exact hno x hx, fun ⟨x, hx, hs⟩ => ?_⟩
+  obtain ⟨hlen, pre1, c0, pre2, hsplit, hs0, hbefore, hlast⟩ := h3 ⟨x, hx, by rw [hseen x (hpre x hx).1]; exact hs⟩
+  have hc0 : c0 ∈ pre := by rw [hsplit]; simp
+  refine ⟨hlen, pre1, c0, pre2, hsplit, by rw [← hseen c0 (hpre c0 hc0).1]; exact hs0, fun y hy => ?_, hlast⟩
+  have hym : y ∈ pre := by rw [hsplit]; simp [hy]
+  rw [← hseen y (hpre y hym).1]; exact hbefore y hy
+
+/-- with `loops` above the cache two DIFFERENT combinations as passed to the stack — `g(a=1)` and `g(1)` — are one
+combination for the cache layer: one execution of `f`, both replies are `f`'s (not a violation: the cached function
+is called with `(1)` both times; `loops` has made the first argument positional) -/
+theorem loops_above_cache_merges :
+    ∃ (s : Sig) (c1 c2 : Call), ¬ sameComb c1 c2 ∧
+      (runH s recBody Call.hasArr [(.loops, []), (.cache, [])] {} [c1, c2]).1.evals.length = 1 ∧
+      (runH s recBody Call.hasArr [(.loops, []), (.cache, [])] {} [c1, c2]).2 = [applyFn s recBody c1, applyFn s recBody c2] := by
+  refine ⟨{ params := ["a"], defaults := [], varargs := none, varkw := none },
+    { args := [], kw := [("a", .cell (.int 1))] }, { args := [.cell (.int 1)], kw := [] }, ?_,
+    by decide +kernel, by decide +kernel⟩
+  rintro ⟨hl, _⟩
+  simp at hl
+
+/-- a call with an unhashable argument (ndarray, pandas: finding K5) inside a history through a stack: in ANY state
+of the cache the plain function is executed exactly once, the reply is what `f` returns, and the cache is left as it
+was — so such calls are re-evaluated every time but never disturb the other calls -/
+theorem stack_cache_unhashable_call (s : Sig) (body : PDict → Res Val) (unh : Call → Bool) (p : PDict)
+    (above below : List (Cls × PDict)) (ha : noCache above) (hb : noCache below) (st : HSt) (c : Call) (v : Val)
+    (h : ValidCall s body c v) (hu : unh (reach s above c) = true) :
+    let r := evalH s body unh (above ++ (Cls.cache, p) :: below) st c
+    r.2 = applyFn s body c ∧ r.1.cache = st.cache ∧ r.1.evals.length = st.evals.length + 1 := by
+  intro r
+  have := evalH_through_unh s body unh p below hb above st c v ha h hu
+  refine ⟨by rw [show r = _ from this, h.ok], by rw [show r = _ from this], by rw [show r = _ from this]; simp⟩
+
+/-- **the first call of a history is the single-call model**: on an empty cache the stack returns what `evalChain`
+returns — for every stack and every call, valid or not, raising or not -/
+theorem stack_history_first_call (s : Sig) (body : PDict → Res Val) (unh : Call → Bool)
+    (chain : List (Cls × PDict)) (c : Call) :
+    (evalH s body unh chain {} c).2 = evalChain s body chain c :=
+  (evalH_fresh s body unh chain {} c rfl).1
+
+/-- every stack the constructor builds has no cache layer or exactly one, so one of `stack_cache_history` /
+`stack_history_without_cache` applies to it -/
+theorem constructed_stack_shape (ds : List (Cls × PDict)) (base : Nat) :
+    let chain := (mkMany ds { chain := [], base := base }).chain
+    noCache chain ∨ ∃ above p below, chain = above ++ (Cls.cache, p) :: below ∧ noCache above ∧ noCache below :=
+  split_at_cache _ (mk_keeps_distinct ds base)
+
+/-- a stack without a cache layer: every valid call is answered by `f` and executes it once -/
+theorem stack_history_without_cache (s : Sig) (body : PDict → Res Val) (unh : Call → Bool)
+    (chain : List (Cls × PDict)) (hn : noCache chain) (calls : List Call)
+    (hv : ∀ c ∈ calls, ∃ v, ValidCall s body c v) :
+    (runH s body unh chain {} calls).2 = calls.map (applyFn s body) ∧
+    (runH s body unh chain {} calls).1.evals.length = calls.length := by
+  obtain ⟨h1, h2⟩ := runH_noCache s body unh chain hn calls {} hv
+  exact ⟨h1, by rw [h2]; simp⟩
+
+/-- non-vacuity: `try_value(repeat=2)(loops(cache(kwargs_support(f))))` for `f(a, b=2)`, called with `(1)`, `(a=1)`,
+`(1.0)`, `(1, b=3)`, `(1)`: two executions, the third reply is the FIRST result (`a = 1`, not `1.0`) -/
+example :
+    let s : Sig := { params := ["a", "b"], defaults := [.cell (.int 2)], varargs := none, varkw := none }
+    let chain : List (Cls × PDict) :=
+      [(.tryValue, [("repeat", .cell (.int 2))]), (.loops, []), (.cache, []), (.kwargsSupport, [])]
+    let c1 : Call := { args := [.cell (.int 1)], kw := [] }
+    let c2 : Call := { args := [], kw := [("a", .cell (.int 1))] }
+    let c3 : Call := { args := [.cell (.flt 4)], kw := [] }
+    let c4 : Call := { args := [.cell (.int 1)], kw := [("b", .cell (.int 3))] }
+    let ab (b : Int) : Res Val := .ok (.dict [("a", .cell (.int 1)), ("b", .cell (.int b))])
+    ValidCall s recBody c2 (.dict [("a", .cell (.int 1)), ("b", .cell (.int 2))]) ∧
+    (runH s recBody Call.hasArr chain {} [c1, c2, c3, c4, c1]).2 = [ab 2, ab 2, ab 2, ab 3, ab 2] ∧
+    (runH s recBody Call.hasArr chain {} [c1, c2, c3, c4, c1]).1.evals.length = 2 := by
+  refine ⟨⟨?_, ?_, by decide +kernel, by decide +kernel⟩, by decide +kernel, by decide +kernel⟩
+  · intro p hp; simp at hp; subst hp; simp
+  · intro p hp; simp at hp; subst hp; simp
 
 /-! ### unhashable arguments (finding K5)
 
